@@ -194,3 +194,15 @@ chk("C10", "model_checking",
     "not in the corpus. One benign deviation (success once the CR of the tagged line is read) is a recorded known finding.",
     "TLA+ spec + TLC (safety and liveness); fault injection at every byte offset of scripted sessions; trace validation of recorded runs",
     "DESIGN.md 3 (C10)", "tlc+harness/cmd/clientfault")
+
+chk("C11", "model_checking",
+    "RespFuzz.tla specifies the response grammar as 202 token productions over 30 contexts with slot classes (boundary numbers 0, 2^32-1, 2^32, 2^63-1, 2^63, 20 digits; nesting "
+    "generators '('^d up to 10^5/10^6) and classifies every line MustDeliver / MustError / Either; TLC checks that the classification is total and disjoint, that every kind is "
+    "covered, and enumerates the mutation space (drop / duplicate / swap / replace / truncate, single and double). Each line is run against a fresh real imapclient.Client by a "
+    "scripted server in sharded child processes (64 MiB stack, time and RSS limits) with every accessor of every returned value invoked; MustError lines must yield an error "
+    "and deliver nothing. Recorded random token lines are re-classified and judged by RespFuzzTrace; raw random bytes are monitored.",
+    "The panic, unbounded-recursion and time/memory clauses are exploration-level: observed on real code under limits; the resource rules are coarse (64x growth for 4x input, "
+    "128x allocation for 16x input) and cannot prove linearity. For mutated input the spec is a generator and classifier, not a behavioural model. A conformant line that is "
+    "refused is only noted (delivery is C03's matter).",
+    "TLA+ grammar/classifier spec + TLC enumeration of the mutation space; process-isolated execution against the real client; trace-judged random lines",
+    "DESIGN.md 3 (C11)", "tlc+harness/cmd/respfuzz")
